@@ -118,6 +118,7 @@ def run(ctx) -> None:
     rep.rule("C07.R3", "cached values that depend on an attribute a derivation writes are dropped from the copy; invalidation resolves through the MRO", floor=6)
     rep.rule("C07.R5", "computing a graph's specification or validating it has no side effect on the nodes and graphs it is computed from", floor=25)
     rep.rule("C07.R4", "derivations return the clone / a new object, never the receiver", floor=10)
+    rep.rule("C07.R6", "values handed out by process-wide memo tables (lru_cache/cache functions, module-level containers) are immutable or never modified/escaped by a caller", floor=1)
 
     derivs = _derivations(db)
     graph_cls = db.cls("graph.core.Graph")
@@ -201,6 +202,9 @@ def run(ctx) -> None:
 
 
 
+    # ---- R6 ---------------------------------------------------------------------
+    check_process_memos(ctx, "C07.R6")
+
     # ---- R5 ---------------------------------------------------------------------
     n5 = 0
     for f5 in db.all_funcs():
@@ -211,6 +215,93 @@ def run(ctx) -> None:
         rep.add("C07.R5", f"{f5.qname}:pure", not eff, f5.loc(), "neither writes nor mutates anything reachable from its parameters" if not eff else f"{fmt_effect(eff[0][1])} through parameter '{eff[0][0]}': building or inspecting one graph rewrites an object that belongs to another (e.g. the cached inputs.bound of a nested graph) — the receiver of as_node()/with_inputs() changes after the fact")
     if n5 < 25:
         raise AnalysisError(f"only {n5} specification/validation functions found")
+
+_IMMUTABLE_CTORS = {"tuple", "frozenset", "str", "int", "float", "bool", "bytes", "MappingProxyType", "types.MappingProxyType"}
+_COPYING = {"dict", "list", "set", "tuple", "frozenset", "sorted", "len", "any", "all", "sum", "min", "max", "iter", "enumerate", "zip", "copy.copy", "copy.deepcopy", "str", "repr", "bool"}
+_READ_METHODS = {"get", "items", "keys", "values", "copy", "index", "count", "union", "intersection", "difference", "issubset", "issuperset", "__contains__"}
+
+
+def _immutable_value(db, f: FuncInfo, v: ast.AST | None, depth: int = 0) -> bool:
+    if v is None or isinstance(v, (ast.Constant, ast.Tuple, ast.JoinedStr, ast.Compare, ast.BoolOp)) and not (isinstance(v, ast.Tuple) and any(isinstance(e, (ast.Dict, ast.List, ast.Set, ast.DictComp, ast.ListComp, ast.SetComp)) for e in v.elts)):
+        return True
+    if isinstance(v, ast.Call) and (dotted(v.func) or "") in _IMMUTABLE_CTORS:
+        return True
+    if isinstance(v, ast.Name) and depth < 3:
+        defs = db.local_defs(f).get(v.id, [])
+        return bool(defs) and all(isinstance(d, ast.Assign) and _immutable_value(db, f, d.value, depth + 1) for d in defs)
+    return False
+
+
+def check_process_memos(ctx, rule: str) -> None:
+    """A value memoised per function / per module is one object shared by every node and graph that asks for it:
+    a caller that edits it, or hands it out as its own, lets one object change what another sees."""
+    db, rep = ctx.db, ctx.rep
+    from sa.effects import MUTATORS
+
+    memo = [f for f in db.all_funcs() if f.module.name.startswith("hypergraph.") and any(d.split("(")[0].split(".")[-1] in ("lru_cache", "cache") for d in f.decorators)]
+    n_sites = 0
+    for g in memo:
+        rets = [n for n in walk_local(g.node) if isinstance(n, ast.Return)]
+        if rets and all(_immutable_value(db, g, r.value) for r in rets):
+            rep.ok(rule, f"{g.qname}:immutable-result", g.loc(), "memoised function returns an immutable value")
+            continue
+        for caller, call in db.callers_of(g):
+            n_sites += 1
+            key = f"{g.name}@{caller.qname}"
+            par = getattr(call, "_parent", None)
+            bad = ""
+            names: set[str] = set()
+            if isinstance(par, ast.Assign) and all(isinstance(t, ast.Name) for t in par.targets):
+                names = {t.id for t in par.targets}
+            elif isinstance(par, ast.Call) and call in par.args and (dotted(par.func) or "") in _COPYING:
+                pass
+            elif isinstance(par, ast.Attribute) and par.attr in _READ_METHODS:
+                pass
+            elif isinstance(par, ast.Subscript) and isinstance(par.ctx, ast.Load):
+                pass
+            elif isinstance(par, (ast.For, ast.comprehension)) and par.iter is call:
+                pass
+            elif isinstance(par, ast.Compare):
+                pass
+            elif isinstance(par, ast.Starred) or isinstance(par, ast.Dict):
+                pass  # unpacked into a new container
+            else:
+                bad = f"the shared result is used as '{src(par)[:60]}' (returned, stored or modified in place)"
+            for n in walk_local(caller.node):
+                if bad or not names:
+                    break
+                if isinstance(n, ast.Call) and isinstance(n.func, ast.Attribute) and isinstance(n.func.value, ast.Name) and n.func.value.id in names and n.func.attr in MUTATORS:
+                    bad = f"'{src(n)[:60]}' at line {n.lineno} edits the memoised object in place"
+                elif isinstance(n, (ast.Subscript, ast.Attribute)) and isinstance(n.ctx, (ast.Store, ast.Del)) and isinstance(n.value, ast.Name) and n.value.id in names:
+                    bad = f"'{src(n)[:60]}' at line {n.lineno} writes into the memoised object"
+                elif isinstance(n, ast.AugAssign) and isinstance(n.target, ast.Name) and n.target.id in names:
+                    bad = f"augmented assignment to '{n.target.id}' at line {n.lineno} edits the memoised object in place"
+                elif isinstance(n, ast.Return) and isinstance(n.value, ast.Name) and n.value.id in names:
+                    bad = f"'return {n.value.id}' at line {n.lineno} hands the memoised object itself to the caller, who owns and may edit it"
+                elif isinstance(n, ast.Assign) and isinstance(n.value, ast.Name) and n.value.id in names and any(isinstance(t, (ast.Attribute, ast.Subscript)) for t in n.targets):
+                    bad = f"'{src(n)[:60]}' at line {n.lineno} stores the memoised object itself in another object"
+            rep.add(rule, key, not bad, caller.loc(), "the result of the process-wide memo is only read or copied" if not bad else f"{g.qname} memoises one {('mutable ' if True else '')}object per argument for the whole process; {bad}: every node/graph over the same function shares it, so a derived object changes its receiver and its siblings")
+    # module-level containers edited from node/graph code
+    n_glob = 0
+    for f in db.all_funcs():
+        if not (f.module.name.startswith("hypergraph.nodes") or f.module.name.startswith("hypergraph.graph")):
+            continue
+        tops = {t.id: st for st in f.module.tree.body if isinstance(st, (ast.Assign, ast.AnnAssign)) for t in (st.targets if isinstance(st, ast.Assign) else [st.target]) if isinstance(t, ast.Name) and isinstance(st.value, (ast.Dict, ast.List, ast.Set, ast.DictComp, ast.ListComp, ast.SetComp, ast.Call)) and (not isinstance(st.value, ast.Call) or (dotted(st.value.func) or "").split(".")[-1] in ("dict", "list", "set", "defaultdict", "OrderedDict", "WeakValueDictionary", "WeakKeyDictionary"))}
+        tops.pop("__all__", None)
+        if not tops:
+            continue
+        locals_ = set(db.local_defs(f)) | set(f.param_names)
+        for n in walk_local(f.node):
+            tgt = None
+            if isinstance(n, ast.Call) and isinstance(n.func, ast.Attribute) and isinstance(n.func.value, ast.Name) and n.func.attr in MUTATORS:
+                tgt = n.func.value.id
+            elif isinstance(n, ast.Subscript) and isinstance(n.ctx, (ast.Store, ast.Del)) and isinstance(n.value, ast.Name):
+                tgt = n.value.id
+            if tgt in tops and tgt not in locals_:
+                n_glob += 1
+                rep.bad(rule, f"{f.qname}:module-state:{tgt}", f.loc(), f"'{src(n)[:60]}' at line {n.lineno} edits the module-level container '{tgt}', which every node and graph in the process shares")
+    rep.ok(rule, "inventory", "src/hypergraph", f"{len(memo)} process-wide memo function(s) ({', '.join(g.qname for g in memo) or 'none'}), {n_sites} call site(s) judged, {n_glob} edit(s) of module-level containers in nodes/ and graph/")
+
 
 def _copy_helper(db, ci: ClassInfo) -> FuncInfo | None:
     if ci is db.cls("graph.core.Graph"):
@@ -457,5 +548,24 @@ VARIANTS = [
     Variant("new-cached-prop-on-entrypoints", CORE, replace_once("    @property\n    def entrypoints_config(self)", "    @functools.cached_property\n    def active_node_names(self) -> tuple | None:\n        return tuple(self._entrypoints) if self._entrypoints is not None else None\n\n    @property\n    def entrypoints_config(self)"), {"C07.R3"}),
     Variant("with-inputs-returns-self-when-empty", BASE, replace_once("        combined = {**(mapping or {}), **kwargs}\n        if not combined:\n            return self._copy()\n        return self._with_renamed(\"inputs\", combined)", "        combined = {**(mapping or {}), **kwargs}\n        if not combined:\n            return self\n        return self._with_renamed(\"inputs\", combined)"), {"C07.R4"}),
     Variant("twin-shallow-copy-vars-pop", CORE, replace_once("        new_graph.__dict__.pop(\"inputs\", None)\n        # _selected and _entrypoints", "        vars(new_graph).pop(\"inputs\", None)\n        # _selected and _entrypoints"), set()),
+]
+CALLABLE = "src/hypergraph/nodes/_callable.py"
+_MEMO_DEF = "@functools.lru_cache(maxsize=None)\ndef _signature_defaults(func):\n    params = inspect.signature(func).parameters\n    return {name: p.default for name, p in params.items() if p.default is not inspect.Parameter.empty}\n\n\nclass CallableMixin:"
+_DEF_OLD = "        sig = inspect.signature(self.func)\n        rename_map = _build_forward_rename_map(self._rename_history)\n\n        return {rename_map.get(name, name): param.default for name, param in sig.parameters.items() if param.default is not inspect.Parameter.empty}\n"
+
+
+def _memo_variant(body: str):
+    def edit(s_: str) -> str:
+        assert s_.count("class CallableMixin:") == 1 and s_.count(_DEF_OLD) == 1
+        return s_.replace("class CallableMixin:", _MEMO_DEF, 1).replace(_DEF_OLD, body, 1)
+
+    return edit
+
+
+VARIANTS += [
+    Variant("shared-signature-memo-edited-in-place", CALLABLE, _memo_variant("        defaults = _signature_defaults(self.func)\n        rename_map = _build_forward_rename_map(self._rename_history)\n        moved = {current: defaults.pop(original) for original, current in rename_map.items() if original in defaults}\n        defaults.update(moved)\n        return defaults\n"), {"C07.R6"}),
+    Variant("shared-signature-memo-handed-out", CALLABLE, _memo_variant("        defaults = _signature_defaults(self.func)\n        if not self._rename_history:\n            return defaults\n        rename_map = _build_forward_rename_map(self._rename_history)\n        return {rename_map.get(name, name): value for name, value in defaults.items()}\n"), {"C07.R6"}),
+    Variant("twin-shared-signature-memo-copied-first", CALLABLE, _memo_variant("        defaults = dict(_signature_defaults(self.func))\n        rename_map = _build_forward_rename_map(self._rename_history)\n        moved = {current: defaults.pop(original) for original, current in rename_map.items() if original in defaults}\n        defaults.update(moved)\n        return defaults\n"), set()),
+    Variant("twin-shared-signature-memo-only-read", CALLABLE, _memo_variant("        rename_map = _build_forward_rename_map(self._rename_history)\n        return {rename_map.get(name, name): value for name, value in _signature_defaults(self.func).items()}\n"), set()),
 ]
 VARIANTS = [v for v in VARIANTS if v is not None]
